@@ -140,6 +140,29 @@ fn diag(req: &Value) -> Value {
     }
 }
 
+fn sighelp(req: &Value) -> Value {
+    let (host, file) = AnalysisHost::new_single_file(req["text"].as_str().unwrap());
+    let a = host.snapshot();
+    let mut n = 0;
+    for o in req["offsets"].as_array().unwrap() {
+        let fpos = FilePos::new(file, (o.as_u64().unwrap() as u32).into());
+        if let Ok(Some(_)) = a.signature_help(fpos) {
+            n += 1;
+        }
+    }
+    json!({"sighelp": n})
+}
+
+fn highlight(req: &Value) -> Value {
+    let host = build(req);
+    let a = host.snapshot();
+    let fpos = FilePos::new(FileId(req["file"].as_u64().unwrap() as u32), (req["offset"].as_u64().unwrap() as u32).into());
+    match a.highlight_related(fpos) {
+        Ok(hs) => json!({"highlight": hs.iter().map(|h| json!([u32::from(h.range.start()), u32::from(h.range.end())])).collect::<Vec<_>>()}),
+        Err(_) => json!("<cancelled>"),
+    }
+}
+
 fn main() {
     panic::set_hook(Box::new(|_| {}));
     let stdin = std::io::stdin();
@@ -159,6 +182,8 @@ fn main() {
             "goto" => goto(&req),
             "complete" => complete(&req),
             "diag" => diag(&req),
+            "sighelp" => sighelp(&req),
+            "highlight" => highlight(&req),
             _ => json!({"error": "unknown command"}),
         });
         let out = match res {
